@@ -29,7 +29,7 @@ CLASS_INV = {
     "Template": _template_inv,
 }
 # theory only some classes need (kept out of the other proofs)
-CLASS_THEORY = {"Template": lambda: T.template_axioms()}
+CLASS_THEORY = {"Template": lambda: T.template_axioms(), "Map": lambda: T.map_iter_axioms()}
 
 # per-class executor configuration: which temporaries are used through their class contract
 ABSTRACT = {
@@ -99,6 +99,15 @@ def _region_withoptions_explain():
     return [z3.Implies(force, T.noshadow(P, O1))]
 
 
+def _region_map_explain():
+    ev = fld_ev("Map", "evaluatable")
+    return [z3.Implies(z3.And(T.ITERok(SELF, O1), T.EXok(ev, O1)), T.EXok(T.ITERv(SELF, O1), O1))]
+
+
+T.assume("A-map-explain", "Map.explain: when the iterables evaluate and the mapped expression can be explained under the caller's options, the per-combination "
+         "expressions can be explained too (the static fallback of Map.explain is then not taken); the fallback taken when an iterable cannot be evaluated IS covered")
+REGIONS["Map"] = [("A-map-explain", "the per-combination expressions cannot be explained although the mapped expression can (unproved case of the static explain fallback, not a known defect)",
+                   _region_map_explain, ("L5", "L5b"))]
 REGIONS["Template"] = [("F31", "an option value that refers to a ':name:' parameter of the template (A-noparam)", lambda: [T.noparam(O1), T.noparam(O2)])]
 REGIONS["WithOptions"] = [
     ("F24", "a scalar in the caller's options where the default options hold a section (the scalar shadows the defaults below it)",
@@ -249,7 +258,36 @@ def get_lock_contract(ex, vars):
     return LockV("overload-instance-lock")
 
 
-FN_CONTRACTS = {("labrea.option", "_templated_keys"): templated_keys_contract, ("labrea.overload", "_get_lock"): get_lock_contract}
+_MAP_ITER_PRELUDE = None
+
+
+def map_iter_contract(ex, vars):
+    """modular use of Map._iter(options) (contracts/map_iter.py states what is proved about the body):
+    evaluates the iterables in order under `options` exactly as the code does (first failure propagates unchanged); then either fails with an
+    EvaluationError of this Map that is not a missing-option failure (the values cannot be iterated / combined into option sets), or returns
+    an expression that depends on `options` only through the iterables' values"""
+    import ast as _ast
+    from pyvc.symex import Env
+    global _MAP_ITER_PRELUDE
+    if _MAP_ITER_PRELUDE is None:
+        _MAP_ITER_PRELUDE = _ast.parse("[iterable.evaluate(options) for iterable in self.iterables.values()]", mode="eval").body
+    mod = ex.repo.module("iterable")
+    ex.eval(_MAP_ITER_PRELUDE, Env(mod, None, {"self": vars["self"], "options": vars["options"]}))
+    s = ex.as_ev(vars["self"])
+    o = ex.as_opt(vars["options"])
+    if ex.fork(T.ITERok(s, o)):
+        return Sym("ev", T.ITERv(s, o))
+    x = T.ITERexc(s, o)
+    for name in ("BaseException", "Exception", "EvaluationError"):
+        ex.define(T.is_cls[name](x))
+    for name in ("KeyNotFoundError", "KeyError", "InsufficientInformationError"):
+        ex.define(z3.Not(T.is_cls[name](x)))
+    ex.define(z3.And(T.exc_src(x) == s, z3.Not(T.missing(x)), T.origin(x) != x))
+    ex.do_raise(ExcSym(x, "EvaluationError"))
+
+
+FN_CONTRACTS = {("labrea.option", "_templated_keys"): templated_keys_contract, ("labrea.overload", "_get_lock"): get_lock_contract,
+                ("labrea.iterable", "Map._iter"): map_iter_contract}
 
 
 class Runs:
